@@ -1368,9 +1368,18 @@ func (p *balloons) validateConfig(bpoptions *BalloonsOptions) error {
 }
 
 // setConfig takes new balloon configuration into use.
-func (p *balloons) setConfig(bpoptions *BalloonsOptions) error {
+func (p *balloons) setConfig(bpoptions *BalloonsOptions) (retErr error) {
 	rawoptions := bpoptions.DeepCopy()
 	bpoptions = bpoptions.DeepCopy()
+
+	// Preparation below computes p.allowed and p.reserved. Put them
+	// back if the configuration turns out to be invalid.
+	savedAllowed, savedReserved, validated := p.allowed, p.reserved, false
+	defer func() {
+		if retErr != nil && !validated {
+			p.allowed, p.reserved = savedAllowed, savedReserved
+		}
+	}()
 
 	// Handle AvailableResources.cpus, if defined.
 	// Set p.allowed: CPUs available for the policy.
@@ -1407,6 +1416,7 @@ func (p *balloons) setConfig(bpoptions *BalloonsOptions) error {
 	// Preparation and configuration validation is now done
 	// without touching the state of the policy.
 	// Next apply the configuration.
+	validated = true
 	p.reservedBalloonDef = reservedBalloonDef
 	p.defaultBalloonDef = defaultBalloonDef
 	p.balloons = []*Balloon{}
